@@ -38,6 +38,10 @@ class Current(ImpExp):
             self._db[key] = info
             return info
         else:
+            # The nonce of a session is the one its request was sent with: nothing that is
+            # stored later (a response may carry a member of that name) replaces it.
+            if "nonce" in _current and info.get("nonce", _current["nonce"]) != _current["nonce"]:
+                info = {k: v for k, v in info.items() if k != "nonce"}
             _current.update(info)
             self._db[key] = _current
             return _current
